@@ -812,6 +812,101 @@ impl<'a> MCtx<'a> {
         Some(Mutant { doc, label: self.label("5.8.5", &format!("{}/nullable-at-non-null", s.class), "nullable-variable-at-non-null") })
     }
 
+    // ---- 5.8.5 variants that INTRODUCE a variable at a typed value position (argument, directive argument,
+    //      input-object field, list item — the position class records which) ----
+
+    /// replace the value at `site` by `$zz_v` and declare `$zz_v: ty (= default)` in every operation
+    fn introduce_var(&mut self, s: &ValSite, ty: Ty, default: Option<Val>, variant: &str, mutation: &str) -> Option<Mutant> {
+        let mut doc = self.doc.clone();
+        *val_mut(&mut doc, &s.owner, &s.inner) = Val::Var("zz_v".into(), p0());
+        let mut any = false;
+        for d in doc.defs.iter_mut() {
+            if let ExecDef::Op(o) = d {
+                o.vars.push(VarDef { name: "zz_v".into(), pos: p0(), ty: ty.clone(), default: default.clone(), dirs: vec![] });
+                any = true;
+            }
+        }
+        if !any {
+            return None;
+        }
+        Some(Mutant { doc, label: self.label("5.8.5", &format!("{}/{}", s.class, variant), mutation) })
+    }
+    /// value positions (not inside a variable default, not already a variable) matching `f`
+    fn plain_sites(&self, f: impl Fn(&ValSite) -> bool) -> Vec<ValSite> {
+        self.val_sites(|s, v| !matches!(s.owner, ValOwner::VarDefault(..)) && !matches!(v, Val::Var(..)) && f(s))
+    }
+    /// (a) `$zz_v: T = null` at a `T!` position that has no default of its own
+    pub fn null_default_at_non_null(&mut self) -> Option<Mutant> {
+        let c = self.plain_sites(|s| s.ty.is_non_null() && !s.loc_default);
+        let s = pick(self.rng, &c)?;
+        let Ty::NonNull(inner) = strip_ty(&s.ty) else { return None };
+        self.introduce_var(&s, *inner, Some(Val::Null(p0())), "null-default-at-non-null", "null-default-at-non-null")
+    }
+    /// (c) `$zz_v: T` (no default anywhere) at a `T!` position
+    pub fn nullable_no_default_at_non_null(&mut self) -> Option<Mutant> {
+        let c = self.plain_sites(|s| s.ty.is_non_null() && !s.loc_default);
+        let s = pick(self.rng, &c)?;
+        let Ty::NonNull(inner) = strip_ty(&s.ty) else { return None };
+        self.introduce_var(&s, *inner, None, "nullable-no-default-at-non-null", "nullable-no-default-at-non-null")
+    }
+    /// (b) remove the default of a nullable variable that is used at a non-null position without location default
+    pub fn remove_needed_default(&mut self) -> Option<Mutant> {
+        let mut c = vec![];
+        for (s, n) in self.var_use_sites() {
+            if !s.ty.is_non_null() || s.loc_default {
+                continue;
+            }
+            let needs = self.doc.defs.iter().any(|d| matches!(d, ExecDef::Op(o) if o.vars.iter().any(|v| v.name == n && !v.ty.is_non_null() && v.default.is_some())));
+            if needs {
+                c.push((s, n));
+            }
+        }
+        let (s, n) = pick(self.rng, &c)?;
+        let mut doc = self.doc.clone();
+        let to_null = self.rng.coin();
+        for d in doc.defs.iter_mut() {
+            if let ExecDef::Op(o) = d {
+                for v in o.vars.iter_mut().filter(|v| v.name == n && !v.ty.is_non_null()) {
+                    v.default = if to_null { Some(Val::Null(p0())) } else { None };
+                }
+            }
+        }
+        let variant = if to_null { "needed-default-replaced-by-null" } else { "needed-default-removed" };
+        Some(Mutant { doc, label: self.label("5.8.5", &format!("{}/{}", s.class, variant), "remove-needed-default") })
+    }
+    /// (d) `[Int]` variable at an `[Int!]` position (inner nullability), one list level too many / too few
+    pub fn list_shape_mismatch(&mut self) -> Option<Mutant> {
+        fn weaken_inner(t: &Ty, under_list: bool) -> Option<Ty> {
+            match t {
+                Ty::NonNull(i) if under_list => Some((**i).clone()),
+                Ty::NonNull(i) => weaken_inner(i, under_list).map(Ty::non_null),
+                Ty::List(i, _) => weaken_inner(i, true).map(Ty::list),
+                Ty::Named(..) => None,
+            }
+        }
+        let how = self.rng.below(3);
+        let c = self.plain_sites(|s| match how {
+            0 => weaken_inner(&strip_ty(&s.ty), false).is_some(),
+            2 => matches!(strip_nn(&s.ty), Ty::List(..)),
+            _ => true,
+        });
+        let s = pick(self.rng, &c)?;
+        let loc = strip_ty(&s.ty);
+        let (ty, variant) = match how {
+            0 => (weaken_inner(&loc, false)?, "nullable-item-at-non-null-item"),
+            1 => (if loc.is_non_null() { Ty::non_null(Ty::list(loc.clone())) } else { Ty::list(loc.clone()) }, "one-list-level-too-many"),
+            _ => {
+                let Ty::List(item, _) = strip_nn(&loc).clone() else { return None };
+                let item = match *item {
+                    Ty::NonNull(i) => *i,
+                    t => t,
+                };
+                (if loc.is_non_null() { Ty::non_null(item) } else { item }, "one-list-level-too-few")
+            }
+        };
+        self.introduce_var(&s, ty, None, variant, "list-shape-mismatch")
+    }
+
     // ---- document level ----
     pub fn duplicate_operation_name(&mut self) -> Option<Mutant> {
         let named: Vec<usize> = self.doc.defs.iter().enumerate().filter(|(_, d)| matches!(d, ExecDef::Op(o) if o.name.is_some())).map(|(i, _)| i).collect();
@@ -1034,7 +1129,7 @@ impl<'a> MCtx<'a> {
     }
 }
 
-pub const MUTATIONS: [&str; 29] = [
+pub const MUTATIONS: [&str; 33] = [
     "rename-field",
     "subselection-on-leaf",
     "drop-subselection",
@@ -1052,6 +1147,10 @@ pub const MUTATIONS: [&str; 29] = [
     "undefined-variable",
     "incompatible-variable-type",
     "nullable-variable-at-non-null",
+    "null-default-at-non-null",
+    "nullable-no-default-at-non-null",
+    "remove-needed-default",
+    "list-shape-mismatch",
     "duplicate-operation-name",
     "second-anonymous-operation",
     "duplicate-fragment-name",
@@ -1085,6 +1184,10 @@ pub fn apply(name: &str, ctx: &mut MCtx) -> Option<Mutant> {
         "undefined-variable" => ctx.undefined_variable(),
         "incompatible-variable-type" => ctx.incompatible_variable(),
         "nullable-variable-at-non-null" => ctx.nullable_variable_at_nonnull(),
+        "null-default-at-non-null" => ctx.null_default_at_non_null(),
+        "nullable-no-default-at-non-null" => ctx.nullable_no_default_at_non_null(),
+        "remove-needed-default" => ctx.remove_needed_default(),
+        "list-shape-mismatch" => ctx.list_shape_mismatch(),
         "duplicate-operation-name" => ctx.duplicate_operation_name(),
         "second-anonymous-operation" => ctx.second_anonymous_operation(),
         "duplicate-fragment-name" => ctx.duplicate_fragment_name(),
@@ -1141,7 +1244,7 @@ pub fn nullable_with_default(rng: &mut Rng, sch: &Sch, doc: &Doc, cfg: &GenCfg) 
                 if let Ty::NonNull(inner) = v.ty.clone() {
                     let mut f = BTreeSet::new();
                     let c2 = GenCfg { variables: false, coercions: false, ..cfg.clone() };
-                    let mut ctx = ValueCtx { schema: sch.m, cfg: &c2, vars: None, features: &mut f, depth: 1 };
+                    let mut ctx = ValueCtx { schema: sch.m, cfg: &c2, vars: None, features: &mut f, depth: 1, loc_default: false };
                     let mut lit = gen_value(rng, &v.ty, &mut ctx);
                     if matches!(lit, Val::Null(_)) {
                         lit = gen_value(rng, &v.ty, &mut ctx);
